@@ -48,7 +48,7 @@ FILES = {
     "src/analyzing/tightness.rs": ["C11", "C04"],
     "src/analyzing/private_recursion.rs": ["C11"],
     "src/analyzing/regularity.rs": ["C11", "C08"],
-    "src/syntax_tree/fol/sigma_0.rs": ["C17", "C07", "C09", "C12", "C13"],
+    "src/syntax_tree/fol/sigma_0.rs": ["C17", "C07", "C09", "C12", "C13", "C02", "C08", "C06", "C19"],
     "src/syntax_tree/asp/mini_gringo.rs": ["C01", "C11", "C14"],
     "src/convenience/apply/mod.rs": ["C18", "C07"],
     "src/convenience/compose/mod.rs": ["C07", "C18"],
@@ -56,6 +56,8 @@ FILES = {
     "src/parsing/asp/mini_gringo/pest.rs": ["C14", "C16", "C01"],
     "src/parsing/fol/sigma_0/pest.rs": ["C15", "C16", "C07"],
 }
+
+ALL_CHECKS = ["C05", "C14", "C15", "C04", "C07", "C18", "C06", "C09", "C12", "C11", "C13", "C02", "C19", "C03", "C16", "C17", "C01", "C08"]
 
 SWAPS = [
     (r"\.any\(", ".all("), (r"\.all\(", ".any("),
@@ -203,7 +205,11 @@ def run_mutant(k, m, threads):
             res.update(status="nocompile", detail="engine: " + out[-400:])
             return res
         ran = []
-        for cid in FILES[m["file"]]:
+        mapped = FILES[m["file"]]
+        todo = mapped + [c for c in ALL_CHECKS if c not in mapped] if m.get("all_checks") else mapped
+        if m.get("all_checks"):
+            res["all_checks"] = True
+        for cid in todo:
             code, out = sh([f"{lane}/target-engine/release/vcheck", cid, "--tier", "quick"], env=env, timeout=900)
             ran.append((cid, code))
             if code == 1:
@@ -257,6 +263,17 @@ def main():
             for l in open(f"{OUT}/results.jsonl"):
                 done.add(json.loads(l)["id"])
         ms = [m for m in ms if m["id"] not in done]
+        if "--survivors-all-checks" in args:
+            # second pass: every mutant that survived its mapped checks is run against ALL in-process
+            # checks, to tell a gap of the file->check mapping from a gap of the checks
+            surv = set()
+            for l in open(f"{OUT}/results.jsonl"):
+                r = json.loads(l)
+                if r["status"] == "survived" and not r.get("all_checks"):
+                    surv.add(r["id"])
+                elif r["id"] in surv:
+                    surv.discard(r["id"])
+            ms = [dict(m, all_checks=True) for m in mutants() if m["id"] in surv]
         print(f"{len(ms)} mutants to run on {lanes} lanes", flush=True)
         for k in range(lanes):
             setup_lane(k)
